@@ -231,6 +231,7 @@ class C04(Cfg):
                 exp_s = ",".join(str(x) for x in sorted(exp))
                 if flt != exp_s:
                     if a_alias: sig = "variable-aliases-literal"
+                    elif pos == "default" and ty in STRINGY and flt.startswith("err:sql"): sig = "default-spliced-into-sql"
                     elif v[0] == "N" and fpos == "param": sig = "null-param-filter-no-match"
                     elif esc or fesc: sig = "literal-escape-not-decoded"
                     elif ty == "Float": sig = "float-filter-mismatch"
